@@ -1,4 +1,5 @@
 import Asts.Proofs.Desired
+import Asts.Proofs.L1_a_Final
 
 /-! # C01 — desired ordinals = the first `replicas` non-negative integers not in delete-slots
 
@@ -38,3 +39,64 @@ theorem no_slot (r : Int) (S : List Int) (hr : 0 ≤ r) : ∀ o ∈ podOrdinals 
 example : podOrdinals 3 [1, 7, 1, -4, 0] = [2, 3, 4] ∧ desired 3 [1, 7, 1, -4, 0] = [2, 3, 4] := by decide
 
 end Asts.C01
+
+/-! # C01 clause (d) — the controller creates pods at exactly the desired ordinals and nowhere else
+
+To be merged into `Props/C01.lean`. No hypothesis on the spec, the snapshot or the fault plan is needed for "nowhere else";
+"exactly" is an equality on the empty cluster under the Parallel policy. -/
+namespace Asts.C01d
+
+/-- **C01 (d)**: the monitor is true on the model's output for EVERY spec, pod list and fault plan. -/
+theorem C01creates_holds (v : SetView) (cur upd : String) (pods : List Pod) (f : Faults) :
+    C01creates v (observe (updateStatefulSet v cur upd pods f).1.acts) = true :=
+  C01creates_holds_gen v cur upd pods f
+
+/-- The same in the shape used by the other headline theorems (`replicasOf v = r`). -/
+theorem C01creates_holds_r (v : SetView) (cur upd : String) (pods : List Pod) (f : Faults) (r : Int)
+    (hr : v.replicas = some r) {o : Int} {rev : String}
+    (h : Action.create o rev ∈ (updateStatefulSet v cur upd pods f).1.acts) : o ∈ desired r v.slots := by
+  have := creates_only_desired_prop v cur upd pods f h
+  simpa [replicasOf, hr] using this
+
+/-- `Prop` reading: every create action of the model is at a desired ordinal. -/
+theorem creates_only_desired (v : SetView) (cur upd : String) (pods : List Pod) (f : Faults) {o : Int} {rev : String}
+    (h : Action.create o rev ∈ (updateStatefulSet v cur upd pods f).1.acts) : o ∈ desired (replicasOf v) v.slots :=
+  creates_only_desired_prop v cur upd pods f h
+
+/-- **Exactly**: on an empty cluster, Parallel policy, no fault, set not being deleted, the created ordinals are the
+    desired set, in ascending order. `hmax` keeps every desired ordinal below the int32 sentinel of the first-unhealthy
+    scan (a set whose only unhealthy pods sit at ordinal ≥ MaxInt32 makes the real code dereference a nil pod, C15). -/
+theorem empty_cluster_exact (v : SetView) (cur upd : String) (r : Int) (hr : v.replicas = some r)
+    (hpar : v.parallel = true) (hdel : v.deleting = false) (hmax : ∀ o ∈ desired r v.slots, o < maxInt32) :
+    createOrds (observe (updateStatefulSet v cur upd [] []).1.acts) = desired r v.slots :=
+  C01d_exact_gen v cur upd [] r hr hpar hdel (by intro o; rfl) hmax
+
+/-- The same with the int32 bound stated on the spec: `replicas + |delete-slots| ≤ MaxInt32`. -/
+theorem empty_cluster_exact_int32 (v : SetView) (cur upd : String) (r : Int) (hr : v.replicas = some r) (h0 : 0 ≤ r)
+    (hpar : v.parallel = true) (hdel : v.deleting = false) (hsmall : r + v.slots.length ≤ maxInt32) :
+    createOrds (observe (updateStatefulSet v cur upd [] []).1.acts) = desired r v.slots :=
+  C01d_exact_int32 v cur upd r hr h0 hpar hdel hsmall
+
+/-- The same for any fault plan that does not fail a create. -/
+theorem empty_cluster_exact_faults (v : SetView) (cur upd : String) (f : Faults) (r : Int) (hr : v.replicas = some r)
+    (hpar : v.parallel = true) (hdel : v.deleting = false) (hf : ∀ o, f.hit 0 o = false)
+    (hmax : ∀ o ∈ desired r v.slots, o < maxInt32) :
+    createOrds (observe (updateStatefulSet v cur upd [] f).1.acts) = desired r v.slots :=
+  C01d_exact_gen v cur upd f r hr hpar hdel hf hmax
+
+/-! non-vacuity -/
+private def exV : SetView :=
+  { replicas := some 3
+    slots := [1, 7, 1, -4, 0]
+    parallel := true
+    strat := .rolling
+    ru := none
+    deleting := false
+    generation := 1
+    stCurrentReplicas := 0 }
+
+example : exV.replicas = some 3 ∧ exV.parallel = true ∧ exV.deleting = false ∧
+    (3 : Int) + exV.slots.length ≤ maxInt32 := by decide
+example : createOrds (observe (updateStatefulSet exV "a" "b" [] []).1.acts) = [2, 3, 4] := by decide
+
+end Asts.C01d
